@@ -174,12 +174,21 @@ def write_replay(rundir, pid, n, payload):
     return p
 
 
+UTIL_TARGET = os.path.join(WORK, "util-target")
+
+
+def build_ipputil():
+    """the real `ipputil` binary from /repo's working tree (C18), outside /repo"""
+    r = sh(["cargo", "build", "-p", "ipp-util", "--release", "--offline"], cwd=REPO, env={"CARGO_TARGET_DIR": UTIL_TARGET}, timeout=3600)
+    return r, os.path.join(UTIL_TARGET, "release", "ipputil")
+
+
 def run_cases(binary, pid, tier, seed, outdir, corpus=True):
     os.makedirs(outdir, exist_ok=True)
     args = [binary, "run", pid, "--tier", tier, "--seed", str(seed), "--out", outdir]
     if corpus:
         args += ["--corpus", os.path.join(ROOT, "corpus", pid)]
-    r = sh(args, cwd=ROOT, timeout=6 * 3600)
+    r = sh(args, cwd=ROOT, timeout=6 * 3600, env={"IPPUTIL_BIN": os.path.join(UTIL_TARGET, "release", "ipputil")})
     if r.returncode != 0:
         return r, None
     model_bin = os.path.join(LEAN, ".lake", "build", "bin", "ippmodel")
@@ -272,6 +281,9 @@ def check(pid, tier):
             P.append("forbidden construct: " + b)
         rb, binary = build_harness(cfg.get("features"))
         harness_ok = rb.returncode == 0
+        if harness_ok and cfg.get("needs_ipputil"):
+            rb, _ = build_ipputil()
+            harness_ok = rb.returncode == 0
     stats = {}
     n = 0
     dis = ofail = sfail = []
@@ -397,6 +409,10 @@ def setup():
             print((r.stdout or "")[-2000:])
             if r.returncode != 0:
                 return 1
+        r, _ = build_ipputil()
+        print((r.stdout or "")[-800:])
+        if r.returncode != 0:
+            return 1
         feats = sorted({c.get("features") or "" for c in PROPS.values()})
         for f in feats:
             r, _ = build_harness(f or None)
@@ -418,7 +434,10 @@ def replay(path):
         translate()
         lake("ippmodel")
         _, binary = build_harness(cfg.get("features"))
-    r = subprocess.run([binary, "exec", pid], input=case + "\n", capture_output=True, text=True)
+        if cfg.get("needs_ipputil"):
+            build_ipputil()
+    r = subprocess.run([binary, "exec", pid], input=case + "\n", capture_output=True, text=True,
+                       env=dict(os.environ, IPPUTIL_BIN=os.path.join(UTIL_TARGET, "release", "ipputil")))
     lines = r.stdout.split("\n")
     print("case:          ", clip(lines[0] if lines else "", 2000))
     print("implementation:", clip(lines[1] if len(lines) > 1 else "", 2000))
